@@ -55,6 +55,7 @@ type Effect struct {
 	Path string // resolved absolute path
 	Size int
 	Step int
+	G    string // goroutine that performed it
 }
 
 var (
@@ -65,6 +66,8 @@ var (
 	Fault func(op, path string) error
 	// StepFn stamps effects.
 	StepFn func() int
+	// WhoFn names the goroutine performing an effect.
+	WhoFn func() string
 )
 
 // Reset empties the tree; cwd is created.
@@ -121,6 +124,13 @@ func AddFile(p string, data []byte) {
 }
 
 //go:norace
+func who() string {
+	if WhoFn != nil {
+		return WhoFn()
+	}
+	return ""
+}
+
 func stamp() int {
 	if StepFn != nil {
 		return StepFn()
@@ -276,7 +286,7 @@ func Mkdir(p string, perm FileMode) error {
 		return perr("mkdir", p, syscall.ENOTDIR)
 	}
 	parent.children[name] = &node{dir: true, children: map[string]*node{}}
-	Effects = append(Effects, Effect{Op: "mkdir", Path: abs, Step: stamp()})
+	Effects = append(Effects, Effect{Op: "mkdir", Path: abs, Step: stamp(), G: who()})
 	return nil
 }
 
@@ -389,7 +399,7 @@ func OpenFile(name string, flag int, perm FileMode) (*File, error) {
 		}
 		target = &node{}
 		parent.children[base] = target
-		Effects = append(Effects, Effect{Op: "create", Path: abs, Step: stamp()})
+		Effects = append(Effects, Effect{Op: "create", Path: abs, Step: stamp(), G: who()})
 	} else {
 		if flag&O_CREATE != 0 && flag&O_EXCL != 0 {
 			return nil, perr("open", name, syscall.EEXIST)
@@ -399,7 +409,7 @@ func OpenFile(name string, flag int, perm FileMode) (*File, error) {
 		}
 		if flag&O_TRUNC != 0 && !target.dir {
 			target.data = nil
-			Effects = append(Effects, Effect{Op: "write", Path: abs, Size: 0, Step: stamp()})
+			Effects = append(Effects, Effect{Op: "write", Path: abs, Size: 0, Step: stamp(), G: who()})
 		}
 	}
 	return &File{n: target, abs: abs, name: name, flag: flag}, nil
@@ -421,14 +431,14 @@ func (f *File) Write(b []byte) (int, error) {
 	}
 	if f.flag&O_APPEND != 0 {
 		f.n.data = append(f.n.data, b...)
-		Effects = append(Effects, Effect{Op: "append", Path: f.abs, Size: len(b), Step: stamp()})
+		Effects = append(Effects, Effect{Op: "append", Path: f.abs, Size: len(b), Step: stamp(), G: who()})
 	} else {
 		if f.pos+len(b) > len(f.n.data) {
 			f.n.data = append(f.n.data[:min(f.pos, len(f.n.data))], make([]byte, f.pos+len(b)-min(f.pos, len(f.n.data)))...)
 		}
 		copy(f.n.data[f.pos:], b)
 		f.pos += len(b)
-		Effects = append(Effects, Effect{Op: "write", Path: f.abs, Size: len(b), Step: stamp()})
+		Effects = append(Effects, Effect{Op: "write", Path: f.abs, Size: len(b), Step: stamp(), G: who()})
 	}
 	return len(b), nil
 }
@@ -472,7 +482,7 @@ func Remove(name string) error {
 		return perr("remove", name, syscall.ENOTEMPTY)
 	}
 	delete(parent.children, base)
-	Effects = append(Effects, Effect{Op: "remove", Path: abs, Step: stamp()})
+	Effects = append(Effects, Effect{Op: "remove", Path: abs, Step: stamp(), G: who()})
 	return nil
 }
 
@@ -590,7 +600,7 @@ func Rename(oldpath, newpath string) error {
 	}
 	delete(op.children, ob)
 	np.children[nb] = ot
-	Effects = append(Effects, Effect{Op: "create", Path: nabs, Size: len(ot.data), Step: stamp()})
+	Effects = append(Effects, Effect{Op: "create", Path: nabs, Size: len(ot.data), Step: stamp(), G: who()})
 	return nil
 }
 
@@ -601,7 +611,7 @@ func RemoveAll(p string) error {
 		return nil
 	}
 	delete(parent.children, base)
-	Effects = append(Effects, Effect{Op: "remove", Path: abs, Step: stamp()})
+	Effects = append(Effects, Effect{Op: "remove", Path: abs, Step: stamp(), G: who()})
 	return nil
 }
 
@@ -688,7 +698,7 @@ func (f *File) Truncate(size int64) error {
 	if int(size) < len(f.n.data) {
 		f.n.data = f.n.data[:size]
 	}
-	Effects = append(Effects, Effect{Op: "write", Path: f.abs, Size: 0, Step: stamp()})
+	Effects = append(Effects, Effect{Op: "write", Path: f.abs, Size: 0, Step: stamp(), G: who()})
 	return nil
 }
 
